@@ -21,14 +21,14 @@ def check(pid, category, technique, text, note, design_ref, engine):
 
 check("C08", "model_checking",
       "explicit-state BFS over operation histories of the real regex tree (state = real object keyed by structural snapshot + reference map), linear-scan oracle at every state",
-      "Every history of <=4 (quick) / <=5-7 (thorough) operations over insert/remove/retain/cache on a collision-rich pattern alphabet is executed on the real RegexTreeMap and UniqueRegexTreeMap, both case modes; at every reachable state find/len/is_empty/get/iter are compared with a linear scan using independently built anchored regexes, and every remove return value with the reference map. Exhaustive inside the bound, so all insertion orders and removal subsets of the small pattern sets are covered.",
+      "Every history of <=4 (quick) / <=5-7 (thorough) operations over insert/remove/retain/cache on collision-rich pattern alphabets (main: shared marker groups, escapes, case twins, multi-byte prefixes; class: parentheses inside character classes; edge: divergence directly after a backslash and inside a multi-byte prefix) is executed on the real RegexTreeMap and UniqueRegexTreeMap, both case modes; at every reachable state find/len/is_empty/get/iter are compared with a linear scan using independently built anchored regexes, and every remove return value with the reference map. Exhaustive inside the bound, so all insertion orders and removal subsets of the small pattern sets are covered.",
       "Trusts the regex crate as matching oracle; coverage is the pattern/haystack alphabets and the history depth; state merging by 128-bit fingerprint of the canonical snapshot.",
       "DESIGN.md 3.2, 4 (C08)", "E2 tree-state explorer")
 
 check("C03", "model_checking",
       "explicit-state BFS over chunk schedules of the real filter chain (state = offset + emitted bytes + full Debug rendering of the filter), one-chunk differential oracle",
-      "For every (body, filter list, response headers) of the corpus, EVERY partition of the body into consecutive chunks, empty chunks included, is covered by a breadth-first search over (offset, emitted bytes, complete filter state) that merges equal states; at every end-of-stream state the total output must equal the one-chunk run. The corpus contains every sequence of <=3 (quick) / <=4 (thorough) tokens of a 16-token markup grammar (malformed, truncated, multi-byte, scripts, comments, raw text) and 25 curated documents. State merging is re-validated on every run against an unmerged enumeration of all 2^(n-1) partitions of the short bodies.",
-      "Bodies outside the corpus are not covered; compressed chains are C14. Open findings (lexical context lost across chunks inside script/textarea/title/comment/CDATA) are listed in known_findings.json by cut-context signature.",
+      "For every (body, filter list, response headers) of the corpus, EVERY partition of the body into consecutive chunks, empty chunks included, is covered by a breadth-first search over (offset, emitted bytes, complete filter state) that merges equal states; at every end-of-stream state the total output must equal the one-chunk run. The corpus contains every sequence of <=3 (quick) / <=4 (thorough) tokens of an 18-token markup grammar (malformed, truncated, multi-byte, scripts, comments with and without markup, raw-text elements) and 25 curated documents; 16 filter lists incl. three whose target is itself a raw-text element. State merging is re-validated on every run against an unmerged enumeration of all 2^(n-1) partitions of the short bodies.",
+      "Bodies outside the corpus are not covered; compressed chains are C14. Open findings (lexical context lost across chunks inside script/textarea/title/comment/CDATA *content that contains markup-like text*) are listed in known_findings.json by cut-context signature; the same contexts without markup-like content have their own '-plain' signatures, which are never known.",
       "DESIGN.md 3.3, 4 (C03)", "E3 chunk-schedule explorer")
 
 check("C04", "model_checking",
@@ -45,13 +45,13 @@ check("C13", "exploration",
 
 check("C16", "exploration",
       "exhaustive enumeration of all byte strings / token sequences up to a length, span-accounting oracle",
-      "Every byte string of length <=7 (quick) / <=8 (thorough) over a 12-byte markup alphabet, every sequence of <=4 / <=5 tokens over a 26-token alphabet (script/escaped/double-escaped states, raw-text elements, CDATA, doctype, non-UTF-8, NUL) and the byte sweep inside each of 11 fragment contexts is tokenised to the end: termination within |input|+1 tokens, no empty token, no panic, raw spans + remainder == input, and every accessor Ok on valid UTF-8.",
+      "Every byte string of length <=7 (quick) / <=8 (thorough) over a 12-byte markup alphabet, every sequence of <=4 / <=5 tokens over a 32-token alphabet (script/escaped/double-escaped states, raw-text elements and partial raw-text tag names, CDATA, doctype, quoted and unquoted attributes, bytes 0xA0/0x85 inside characters, non-UTF-8, NUL) and the byte sweep inside each of 11 fragment contexts is tokenised to the end: termination within |input|+1 tokens, no empty token, no panic, next() never returns Err, raw spans + remainder == input, and every accessor Ok on valid UTF-8.",
       "Release profile only (the script states recurse per byte in debug builds). Longer inputs are not covered.",
       "DESIGN.md 3.4, 4 (C16)", "E4 product enumerator")
 
 check("C01", "model_checking",
       "explicit-state BFS over insert histories of the real Router (state keyed by the canonical snapshot of all matcher layers), flat-predicate oracle on deviation-bounded probe sets",
-      "Routers are built by every insert history of depth 1 over the full star-and-pairs trigger universe (base rule, every single-trigger deviation, every cross-dimension pair, six all-dimension rules: ~900 rules) and depth 2 (quick) / 3 (thorough) over a ~90-rule sub-universe, under 4 (quick) / 16 (thorough) flag configurations. At every state, for every live rule, its all-satisfying request and every request differing from it in <=2 (<=1 at the deeper levels) trigger dimensions are matched; the multiset of returned ids must be exactly the rules whose per-trigger reference predicate holds, with the any-host policy applied per scheme scope. Missed, spurious and duplicate rules are separate violations.",
+      "Routers are built by every insert history of depth 1 over the full star-and-pairs trigger universe (base rule, every single-trigger deviation, every cross-dimension pair, six all-dimension rules: ~900 rules) and depth 2 (quick) / 3 (thorough) over a ~90-rule sub-universe, under 4 (quick) / 16 (thorough) flag configurations. At every state, for every live rule, its all-satisfying request and every request differing from it in <=2 (<=1 at the deeper levels) trigger dimensions are matched; the multiset of returned ids must be exactly the rules whose per-trigger reference predicate holds, with the any-host policy applied per scheme scope. Missed, spurious and duplicate rules are separate violations. A third exploration covers every insertion order (depth 4, thorough 5) of a host-focus universe (several rules on one dynamic host, a host regex extending another, literal and any-host rules). A panic of the router is reported as a violation (panic:<file:line>).",
       "Reference predicate validated against the implementation over 127M evaluations in round 0. ASCII paths only (C09 covers normalisation). Pairs the statement leaves open (not_in_range x no client address) are not asserted.",
       "DESIGN.md 3.1, 3.1.1", "E1 router-state explorer")
 
@@ -63,7 +63,7 @@ check("C02", "model_checking",
 
 check("C12", "model_checking",
       "explicit-state BFS over tree and router histories with cache operations interleaved; at every state the full (limit, level) grid / every limit 0..N+1 is applied to a clone and observations compared",
-      "Tree half: at every state of the tree explorer (histories <=3/<=4 incl. cache operations) every (limit in {0,1,2,3,8}, level in {None,0..3}) is applied to a clone, once and twice, and find() on 52 haystacks must be unchanged. Router half: at every state of the history explorer (<=3/<=4 operations incl. cache(None|1|2) interleaved with updates) match ids, captures of every matched route and the canonicalised trace are compared between the router and its clone after cache(n) for n in {None,0..3|live|+2}, for the history-shaped and for a freshly rebuilt router, plus cache twice and cache(a) then cache(b); the possibly partially warmed state must answer like the never-cached rebuild.",
+      "Tree half: at every state of the tree explorer (histories <=3/<=4 incl. cache operations) every (limit in {0,1,2,3,8}, level in {None,0..3}) is applied to a clone, once and twice, and find() on every haystack must be unchanged. Router half: at every state of the history explorer (<=3/<=4 operations incl. cache(None|1|2) interleaved with updates) match ids, captures of every matched route and the canonicalised trace are compared between the router and its clone after cache(n) for n in {None,0..3|live|+2}, for the history-shaped and for a freshly rebuilt router, plus repeated warm-ups (cache(1) twice, cache(None) twice, cache(a) then cache(b)); because Router::clone shares every route's lazily compiled capture regex with its source, the answers (ids + captures) of every variant are also compared with a pristine router built from new Route objects that is never cloned nor cached.",
       "Trace arrays whose order comes from hash-map iteration are sorted before comparison.",
       "DESIGN.md 3.1.4, 3.2", "E1 + E2")
 
@@ -105,7 +105,7 @@ check("C10", "exploration",
 
 check("C14", "exploration",
       "deviation-bounded exhaustive enumeration of chunk schedules of compressed streams on the real decode/filter/encode chain, independent-decoder oracle",
-      "6 bodies (half with 2/3/4-byte characters, one empty) x gzip/zlib/brotli streams produced at several levels / window sizes x 3 filter lists, Content-Encoding in both letter cases. Per stream: the single-chunk schedule, ALL partitions with one cut, an empty chunk at every cut and at both ends, ALL uniform strides 1..n (stride 1 = byte at a time) and a lattice of two-cut partitions (thorough: ALL partitions with <=2 cuts). The concatenated output must be accepted by an independent decoder as exactly one complete stream (no error, no trailing bytes) whose plaintext equals the same filters applied to the plain body. Unsupported / composite encodings (identity, compress, zstd, 'gzip, br', x-gzip, empty) must build no filter (natively and through Action::create_filter_body) and pass opaque bytes through.",
+      "7 bodies (half with 2/3/4-byte characters, one empty, one of 75 KiB so that a compressed chunk inflates past the codecs' 32 KiB internal buffers) x gzip/zlib/brotli streams produced at several levels / window sizes x 3 filter lists, Content-Encoding in both letter cases. Per stream: the single-chunk schedule, ALL partitions with one cut, an empty chunk at every cut and at both ends, ALL uniform strides 1..n (stride 1 = byte at a time) and a lattice of two-cut partitions (thorough: ALL partitions with <=2 cuts). The concatenated output must be accepted by an independent decoder as exactly one complete stream (no error, no trailing bytes) whose plaintext equals the same filters applied to the plain body. Unsupported / composite encodings (identity, compress, zstd, 'gzip, br', x-gzip, empty) must build no filter (natively and through Action::create_filter_body) and pass opaque bytes through.",
       "Codec state is opaque, so there is no state merging and the bound is the number of cuts, not all partitions. flate2 and brotli are trusted as producers and decoders.",
       "DESIGN.md 3.3 (E3'), 4 (C14)", "E3' deviation-bounded chunker")
 
@@ -129,7 +129,7 @@ check("C18", "model_checking",
 
 check("C19", "exploration",
       "exhaustive product enumeration (base rule sets x change-sets x examples x hop limits x domains), differential between the incremental and standalone entry-point families, the harness's own proxy-order pipeline and internal consistency of the hop list",
-      "Base sets of <=2 (quick) / <=3 (thorough) rules from a 10-rule alphabet (redirect chains a->b->c, self loop, a->b->a, conditional and exclude-conditional redirects, header/body filters and log override with unit ids, reset, stop, a dynamic rule, an off-domain target; every rule has a second version with the same id; examples incl. must_match:false and an unparsable URL) x change-sets {none, add, add+delete, update, delete, update+delete in both roles} x hop limits x project domains {[], [host]} x example URLs x example status {none, 404, 200} x impact action. Per case: TestExamples, UnitIds, Explain and Impact through *_from_project(Arc<Router>, change-set) and through the standalone entry point on the resulting rule list must serialise identically (match traces compared through the rules they contain, set-valued unit_ids_seen sorted), the standalone test-examples output must be the same for every order of the rule list, the explain response (status, headers, body, log decision) must equal the harness's own pipeline in proxy order, every reported hop list has <= max_hops+1 entries, only redirect hops, Loop iff a (URL, method) repeats, TooManyHops only at the limit, and the shared router's snapshot and answers are unchanged after every project call.",
+      "Base sets of <=2 (quick) / <=3 (thorough) rules from a 10-rule alphabet (redirect chains a->b->c, self loop, a->b->a, conditional and exclude-conditional redirects, header/body filters and log override with unit ids, reset, stop, a dynamic rule, an off-domain target; every rule has a second version with the same id; examples incl. must_match:false and an unparsable URL) x change-sets {none, add, add+delete, update, delete, update+delete in both roles} x hop limits x project domains {[], [host]} x example URLs x example status {none, 404, 200} x impact action. Per case: TestExamples, UnitIds, Explain and Impact through *_from_project(Arc<Router>, change-set) and through the standalone entry point on the resulting rule list must serialise identically (match traces compared through the rules they contain, set-valued unit_ids_seen sorted), the standalone test-examples output must be the same for every order of the rule list, the explain response (status, headers, body, log decision) must equal the harness's own pipeline in proxy order, every reported hop list has <= max_hops+1 entries, only redirect hops, Loop iff a (URL, method) repeats, TooManyHops only at the limit, and equals (hops and verdict) what an independent follower built on the harness's own pipeline computes for GET and POST examples, and the shared router's snapshot and answers are unchanged after every project call.",
       "One open finding (explain/impact skip the request-time phase when the example carries a status code) is listed in known_findings.json.",
       "DESIGN.md 4 (C19)", "E4 product enumerator")
 
